@@ -35,6 +35,38 @@ def random_valid(ctx, n):
     return cases
 
 
+KNOWN_INPUTS = {        # id in known_findings.json -> the exact constructor input
+    "D4b-resolution": ("lin", 1.0, 1.0 + 1e-12, 3),
+    "D4b-overflow": ("lin", 0.0, 1e308, 2),
+    "D4b-underflow": ("log", 1e-320, 1.0, 3),
+}
+
+
+def known_findings(ctx, res):
+    from .. import tlc, units
+    from ..core import add_violation, load_known
+
+    ents = {k["id"]: k for k in load_known(ctx.prop) if k["status"] == "known"}
+    cases = []
+    for kid, (kind, s, e, n) in KNOWN_INPUTS.items():
+        if kid in ents:
+            cases.append({"cid": 10**6 + len(cases), "fn": "grid", "kind": kind, "s": repr(s), "e": repr(e), "n": repr(n), "values": [s, e, n],
+                          "must_reject": False, "must_accept": False, "nval": n, "tol": TOL, "kid": kid})
+    if not cases:
+        return
+    done = units.run_units(cases, nproc=1)
+    verdicts, _ = tlc.validate_traces("TraceUnits", done, nproc=1)
+    for c in done:
+        v = verdicts[c["cid"]]["v"]
+        ent = ents[c["kid"]]
+        if v[0] == "FAIL":
+            if v[1] == ent["match"]["clause"] and ent["match"]["law"] in v[2]:
+                res.known.append(f"{c['kid']}: {c['kind']} grid start={c['s']} stop={c['e']} n_points={c['n']}: {ent['match']['law']}")
+            else:
+                add_violation(ctx, res, v[1], {"kind": "unit", "property": ctx.prop, "case": c, "verdict": verdicts[c["cid"]]},
+                              f"known input {c['kid']} fails differently: {v[2][:200]}")
+
+
 def run(ctx: Ctx) -> Result:
     res = Result(ctx.prop)
     mc = mc_or_die("MC_Grids", "MC_Grids.cfg", workers=4)
@@ -46,6 +78,7 @@ def run(ctx: Ctx) -> Result:
     for i, c in enumerate(cases):
         c["cid"] = i
     run_unit_cases(ctx, res, cases, chunk=500, sample_keys=("fn", "kind", "s", "e", "n", "cls"), nontrivial=lambda c: True)
+    known_findings(ctx, res)
     res.merge_cov(states=mc["distinct"], transitions=mc["generated"], input_class_combinations=len(gen), exhaustive=True,
                   samples=[{k: v for k, v in c.items() if k in ("fn", "kind", "s", "e", "n", "must_reject", "cls")} for c in (cases[0], cases[4000], cases[-1])])
     finalize_units(res, "TLC enumerates all 2 x 17 x 17 x 10 combinations of abstract input classes (signs, zero, equal/reversed "
